@@ -8,7 +8,7 @@
 #include "lpfam.h"
 
 static int is_T;
-static int o_files, o_verify;
+static int o_files, o_verify, o_warm;
 static void basis_init (void)
 {
 	const char *fam = opt_str ("fam", "S0c");
@@ -16,6 +16,7 @@ static void basis_init (void)
 	if (!is_T) lpfam_select (fam);
 	o_files = (int) opt_int ("files", 1);
 	o_verify = (int) opt_int ("verify", 1);
+	o_warm = (int) opt_int ("warm", 0);
 	qsx_start ();
 }
 static long basis_count (void) { return is_T ? tfam_count () : lpfam_count (); }
@@ -63,6 +64,7 @@ static void basis_run (long item)
 	SF *S = sf_from_ref (L);
 	mpq_QSprob p = qsx_build (L, ROUTE_LOAD, 0);
 	if (!p) { viol ("C06", "build-failed", "could not build instance"); sf_free (S); ref_free (L); return; }
+	Truth *T = o_warm ? ref_solve (L) : NULL;
 	BEnum E; benum_init (&E, S, L);
 	char cs[16], rs[16];
 	long nb = 0;
@@ -127,6 +129,28 @@ static void basis_run (long item)
 				}
 			}
 		}
+		/* ---- C04: a warm start from ANY valid basis (singular ones included) must not change the answer */
+		if (o_warm && T && T->status != TRUTH_UNKNOWN) {
+			static const int algos[2] = { DUAL_SIMPLEX, PRIMAL_SIMPLEX };
+			for (int ai = 0; ai < 2; ai++) {
+				mpq_QSprob pw = qsx_build (L, ROUTE_LOAD, 0);
+				if (!pw) continue;
+				QSbasis *wb = qsx_basis_dup (&qb);
+				int st = 0, rv = QSexact_solver (pw, NULL, NULL, wb, algos[ai], &st);
+				STAT ("executions"); STAT ("warm_starts");
+				int want = T->status == TRUTH_OPTIMAL ? QS_LP_OPTIMAL : T->status == TRUTH_INFEASIBLE ? QS_LP_INFEASIBLE : QS_LP_UNBOUNDED;
+				mpq_t v; mpq_init (v);
+				tr_int (rv); tr_int (st);
+				if (rv || st != want || (want == QS_LP_OPTIMAL && (mpq_QSget_objval (pw, &v) || !mpq_equal (v, T->val)))) {
+					bdesc (L, cs, rs, desc, sizeof desc);
+					char sig[96]; snprintf (sig, sizeof sig, "warmstart-truth-%s-got-%s", status_name (want), rv ? "ERR" : status_name (st));
+					viol ("C04", sig, "QSexact_solver(%s) warm-started from this basis returns rval=%d status=%s, the LP is %s: %s", ai ? "PRIMAL" : "DUAL", rv, status_name (st), status_name (want), desc);
+				}
+				mpq_clear (v);
+				mpq_QSfree_basis (wb);
+				mpq_QSfree_prob (pw);
+			}
+		}
 		/* ---- C14: basis file round trip (also for singular bases: the file format does not care) */
 		if (o_files) {
 			int rv = mpq_QSwrite_basis (p, &qb, "b.bas");
@@ -175,6 +199,7 @@ static void basis_run (long item)
 	stat_max ("bases_per_lp", nb);
 	if (any_nonsing) STAT ("instances_nontrivial");
 	mpq_clear (dob); mpq_clear (neg);
+	if (T) truth_free (T);
 	(void) why;
 	mpq_QSfree_prob (p);
 	sf_free (S);
